@@ -1582,7 +1582,7 @@ def main(ck):
     bad = ck.eval_cases("cases", HEADER, terms, "check_case", shard=60)
     names = {1: "ImplSem (model) vs implementation", 2: "RefSem (spec) vs implementation — impl_refines_ref",
              3: "generated program is not wf", 4: "clean-fragment classification differs", 5: "model out of fuel",
-             6: "a function's variable table does not cover its body"}
+             6: "a symbol table does not cover its body (cov_prog)", 7: "SlotSem (index-accessed frame vectors) vs implementation"}
     for j, cls in sorted(bad.items()):
         i = idxmap[j]
         pr, cl, dkey, fam = cases[i]
@@ -1590,15 +1590,19 @@ def main(ck):
                   "impl_out": obs[i], "clause": [names[x] for x in cls]}
         if ck.replay or len(ck.violations) < 3:
             replay["coq"] = ck.eval_print(HEADER, "show_case %s" % coq_prog(pr))
+        cls = [x for x in cls if not (x == 7 and 1 in cls)]      # the twin differs whenever ImplSem does
         if fam == "escape":
             cls = [x for x in cls if x not in (3, 4)]      # not wf by construction (see escape_programs)
             if not cls:
                 continue
+        if 7 in cls and 1 not in cls:
+            # ImplSem agrees with the code, its slot-vector twin does not: slot_sem_is_impl_sem no longer applies
+            ck.broken.append("correspondence:C02.SlotSem")
         if 3 in cls or 4 in cls or 5 in cls or 6 in cls:
             ck.broken.append("generator:" + ",".join(str(x) for x in cls))
             ck.violation("generator:%s" % fam, replay)
             continue
-        if dkey == "closure:falloff-value" and set(cls) <= {1, 2}:
+        if dkey == "closure:falloff-value" and set(cls) <= {1, 2, 7}:
             ck.violation(dkey, replay)       # documented modelling gap = the known finding (see dirty_programs)
             continue
         if 1 in cls:
